@@ -4,9 +4,9 @@
 (* kept finite by the contract's own limits (MaxLabels, MaxSections, MaxRelocs: the kTooMany* refusals are    *)
 (* reached) and by state constraints on the unbounded parts.  `hist` records the calls (not the results) and *)
 (* is exported as a script that the harness replays on the real CodeHolder.                                   *)
-EXTENDS Registry, TLC
+EXTENDS Registry, TLC, Json
 
-CONSTANTS Groups,     \* which API groups are explored: subset of {"life", "label", "bind", "fixup", "sect", "addr", "reloc", "emit"}
+CONSTANTS Groups,     \* which API groups are explored: subset of {"life", "label", "bind", "fixup", "sect", "addr", "reloc", "emit", "resize"}
           WithFaults, \* explore injected allocation failures
           MaxOps,     \* bound on the history length (0 = unbounded, state space bounded by the limits only)
           MaxFix, MaxAddr, Emitters,
@@ -42,66 +42,61 @@ IdCands(r, n) == IF r = "Ok" THEN {n, n + 1} ELSE {-1}
 Rec(r) == hist' = IF MaxOps = 0 THEN hist ELSE Append(hist, r)
 On(g) == g \in Groups
 
-Life ==
-  \/ \E b \in {-1, 4096}, envok \in BOOLEAN, f \in MCFaults : \E r \in Cands({"AlreadyInitialized", "InvalidArgument"}, f) :
-        Init(envok, b, r, f) /\ Rec([op |-> "init", envok |-> envok, base |-> b, fault |-> f])
-  \/ \E f \in MCFaults : \E r \in Cands({"NotInitialized"}, f) : Reinit(r, f) /\ Rec([op |-> "reinit", fault |-> f])
-  \/ ResetHolder /\ Rec([op |-> "reset"])
-  \/ \E h \in 0 .. 2 : SetErrorHandler(h) /\ Rec([op |-> "seteh", h |-> h])
-  \/ \E g \in 0 .. 1 : SetLogger(g) /\ Rec([op |-> "setlg", g |-> g])
+G(g) == g \in Groups /\ (MaxOps = 0 \/ Len(hist) < MaxOps)
 
-Emit ==
-  \/ \E e \in Emitters : \E r \in Cands({"InvalidArch", "NotInitialized"}, FALSE) : Attach(e, e # 3, r, FALSE) /\ Rec([op |-> "attach", em |-> e])
-  \/ \E e \in Emitters : \E r \in Cands({}, FALSE) : Detach(e, r) /\ Rec([op |-> "detach", em |-> e])
-  \/ \E e \in Emitters, id \in {-1, Len(labels)}, errs \in HCalls({"TooManyLabels"}) :
-        ENewLabel(e, id, errs, FALSE) /\ Rec([op |-> "elabel", em |-> e])
-  \/ \E e \in Emitters, n \in {<<>>, <<1>>}, t \in {1, 2}, p \in {-1, 0} : \E id \in {-1, Len(labels)}, errs \in HCalls(NamedMust(n, t, p)) :
-        ENewNamed(e, n, t, p, id, errs, FALSE) /\ Rec([op |-> "enamed", em |-> e, name |-> n, type |-> t, parent |-> p])
-  \/ \E e \in Emitters, n \in {<<1>>}, p \in {-1, 0} : \E r \in LookupSet(p, n) \cup {-1, 0} :
-        ELookup(e, n, p, r) /\ Rec([op |-> "elookup", em |-> e, name |-> n, parent |-> p])
-  \/ \E e \in Emitters, id \in {0, 1} : \E r \in Cands(BindMust(id, 0), FALSE) : \E errs \in HCalls({r}) :
-        \/ e = 1 /\ EBindAsm(e, id, 0, 7, r, errs) /\ Rec([op |-> "ebind", em |-> e, id |-> id])
-        \/ e = 2 /\ EBindBuilder(e, id, r, errs) /\ Rec([op |-> "ebind", em |-> e, id |-> id])
-  \/ \E e \in Emitters, id \in {0, 5}, r \in BOOLEAN : EIsValid(e, id, r) /\ Rec([op |-> "evalid", em |-> e, id |-> id])
+(* one named action per API call, so that TLC's coverage report shows that each of them is taken *)
+AInit == G("life") /\ \E b \in {-1, 4096}, envok \in BOOLEAN, f \in MCFaults : \E r \in Cands({"AlreadyInitialized", "InvalidArgument"}, f) :
+           Init(envok, b, r, f) /\ Rec([op |-> "init", envok |-> envok, base |-> b, fault |-> f])
+AReinit == G("life") /\ \E f \in MCFaults : \E r \in Cands({"NotInitialized"}, f) : Reinit(r, f) /\ Rec([op |-> "reinit", fault |-> f])
+AResetH == G("life") /\ ResetHolder /\ Rec([op |-> "reset"])
+ASetEH == G("life") /\ \E h \in 0 .. 2 : SetErrorHandler(h) /\ Rec([op |-> "seteh", h |-> h])
+ASetLG == G("life") /\ \E g \in 0 .. 1 : SetLogger(g) /\ Rec([op |-> "setlg", g |-> g])
 
-Label ==
-  \/ \E f \in MCFaults : \E r \in Cands({"TooManyLabels"}, f) : \E id \in IdCands(r, Len(labels)) :
-        NewLabel(r, id, f) /\ Rec([op |-> "label", fault |-> f])
-  \/ \E n \in LNames, t \in LTypes, p \in LParents, f \in MCFaults :
-        \E r \in Cands(NamedMust(Eff(n), t, p) \cup NamedMay(n, t, p), f) : \E id \in IdCands(r, Len(labels)) :
-          NewNamed(n, t, p, r, id, f) /\ Rec([op |-> "named", name |-> n, type |-> t, parent |-> p, fault |-> f])
-  \/ \E n \in LNames, p \in LParents : \E r \in LookupSet(p, Eff(n)) \cup {-1, 0} :
-        LookupByName(n, p, r) /\ Rec([op |-> "lookup", name |-> n, parent |-> p])
+AAttach == G("emit") /\ \E e \in Emitters : \E r \in Cands({"InvalidArch", "NotInitialized"}, FALSE) : Attach(e, e # 3, r, FALSE) /\ Rec([op |-> "attach", em |-> e])
+ADetach == G("emit") /\ \E e \in Emitters : \E r \in Cands({}, FALSE) : Detach(e, r) /\ Rec([op |-> "detach", em |-> e])
+AELabel == G("emit") /\ \E e \in Emitters, id \in {-1, Len(labels)}, errs \in HCalls({"TooManyLabels"}) :
+             ENewLabel(e, id, errs, FALSE) /\ Rec([op |-> "elabel", em |-> e])
+AENamed == G("emit") /\ \E e \in Emitters, n \in {<<>>, <<1>>}, t \in {1, 2}, p \in {-1, 0} : \E id \in {-1, Len(labels)}, errs \in HCalls(NamedMust(n, t, p)) :
+             ENewNamed(e, n, t, p, id, errs, FALSE) /\ Rec([op |-> "enamed", em |-> e, name |-> n, type |-> t, parent |-> p])
+AELookup == G("emit") /\ \E e \in Emitters, n \in {<<1>>}, p \in {-1, 0} : \E r \in LookupSet(p, n) \cup {-1, 0} :
+              ELookup(e, n, p, r) /\ Rec([op |-> "elookup", em |-> e, name |-> n, parent |-> p])
+AEBindAsm == G("emit") /\ \E id \in {0, 1} : \E r \in Cands(BindMust(id, 0), FALSE) : \E errs \in HCalls({r}) :
+               EBindAsm(1, id, 0, 7, r, errs) /\ Rec([op |-> "ebind", em |-> 1, id |-> id])
+AEBindBuilder == G("emit") /\ \E id \in {0, 1} : \E r \in {"Ok", "InvalidLabel", "LabelAlreadyBound", "InvalidState"} : \E errs \in HCalls({r}) :
+                   EBindBuilder(2, id, r, errs) /\ Rec([op |-> "ebind", em |-> 2, id |-> id])
+AEValid == G("emit") /\ \E e \in Emitters, id \in {0, 5}, r \in BOOLEAN : EIsValid(e, id, r) /\ Rec([op |-> "evalid", em |-> e, id |-> id])
 
-BindG ==
-  \E id \in {0, 1, 9}, s \in {0, 1, 9}, o \in {3} : \E r \in Cands(BindMust(id, s), FALSE) : Bind(id, s, o, r) /\ Rec([op |-> "bind", id |-> id, sec |-> s, off |-> o])
+ALabel == G("label") /\ \E f \in MCFaults : \E r \in Cands({"TooManyLabels"}, f) : \E id \in IdCands(r, Len(labels)) :
+            NewLabel(r, id, f) /\ Rec([op |-> "label", fault |-> f])
+ANamed == G("label") /\ \E n \in LNames, t \in LTypes, p \in LParents, f \in MCFaults :
+            \E r \in Cands(NamedMust(Eff(n), t, p) \cup NamedMay(n, t, p), f) : \E id \in IdCands(r, Len(labels)) :
+              NewNamed(n, t, p, r, id, f) /\ Rec([op |-> "named", name |-> n, type |-> t, parent |-> p, fault |-> f])
+ALookup == G("label") /\ \E n \in LNames, p \in LParents : \E r \in LookupSet(p, Eff(n)) \cup {-1, 0} :
+             LookupByName(n, p, r) /\ Rec([op |-> "lookup", name |-> n, parent |-> p])
 
-FixG ==
-  \/ \E id \in {0, 1}, s \in {0, 1}, ok \in BOOLEAN, f \in MCFaults :
-        Len(fix) < MaxFix /\ NewFixup(id, s, ok, f) /\ Rec([op |-> "fixup", id |-> id, sec |-> s, fault |-> f])
-  \/ \E r \in {"Ok", "InvalidState"} : ResolveCross(r) /\ Rec([op |-> "resolve"])
-  \/ \E offs \in {[i \in 1 .. Len(sects) |-> (i - 1) * 64]} : Flatten("Ok", offs, [i \in 1 .. Len(sects) |-> sects[i].vsize]) /\ Rec([op |-> "flatten"])
+ABind == G("bind") /\ \E id \in {0, 1, 9}, s \in {0, 1, 9}, o \in {3} : \E r \in Cands(BindMust(id, s), FALSE) :
+           Bind(id, s, o, r) /\ Rec([op |-> "bind", id |-> id, sec |-> s, off |-> o])
 
-Sect ==
-  \/ \E n \in MCSecNames, a \in MCAligns, o \in MCOrders, f \in MCFaults : \E r \in Cands(SecMust(n, a), f) : \E id \in IdCands(r, Len(sects)) :
-        NewSection(n, 2, a, o, r, id, f) /\ Rec([op |-> "section", name |-> n, flags |-> 2, align |-> a, order |-> o, fault |-> f])
-  \/ \E n \in MCSecNames \cup {TextName, AddrTabName}, r \in -1 .. MaxSections : SectionByName(n, r) /\ Rec([op |-> "secbyname", name |-> n])
+AFixup == G("fixup") /\ \E id \in {0, 1}, s \in {0, 1}, ok \in BOOLEAN, f \in MCFaults :
+            Len(fix) < MaxFix /\ NewFixup(id, s, ok, f) /\ Rec([op |-> "fixup", id |-> id, sec |-> s, fault |-> f])
+AResolve == G("fixup") /\ \E r \in {"Ok", "InvalidState"} : ResolveCross(r) /\ Rec([op |-> "resolve"])
+AFlatten == G("fixup") /\ (\A i \in DOMAIN sects : i > 1 => sects[i].off = -1)
+            /\ Flatten("Ok", [i \in 1 .. Len(sects) |-> (i - 1) * 64], [i \in 1 .. Len(sects) |-> sects[i].vsize]) /\ Rec([op |-> "flatten"])
 
-Addr ==
-  \/ \E r \in -1 .. MaxSections, f \in MCFaults : EnsureAddrTab(r, f) /\ Rec([op |-> "ensure", fault |-> f])
-  \/ \E a \in 1 .. MaxAddr, f \in MCFaults : \E r \in Cands({"TooManySections"}, f) : AddAddr(a, r, f) /\ Rec([op |-> "addaddr", a |-> a, fault |-> f])
+ASection == G("sect") /\ \E n \in MCSecNames, a \in MCAligns, o \in MCOrders, f \in MCFaults : \E r \in Cands(SecMust(n, a), f) : \E id \in IdCands(r, Len(sects)) :
+              NewSection(n, 2, a, o, r, id, f) /\ Rec([op |-> "section", name |-> n, flags |-> 2, align |-> a, order |-> o, fault |-> f])
+ASecByName == G("sect") /\ \E n \in MCSecNames \cup {TextName, AddrTabName}, r \in -1 .. MaxSections : SectionByName(n, r) /\ Rec([op |-> "secbyname", name |-> n])
 
-Reloc == \E t \in {1, 3}, f \in MCFaults : \E r \in Cands({"TooManyRelocations"}, f) : \E id \in IdCands(r, Len(relocs)) : NewReloc(t, r, id, f) /\ Rec([op |-> "reloc", type |-> t, fault |-> f])
+AEnsure == G("addr") /\ \E r \in -1 .. MaxSections, f \in MCFaults : EnsureAddrTab(r, f) /\ Rec([op |-> "ensure", fault |-> f])
+AAddAddr == G("addr") /\ \E a \in 1 .. MaxAddr, f \in MCFaults : \E r \in Cands({"TooManySections"}, f) : AddAddr(a, r, f) /\ Rec([op |-> "addaddr", a |-> a, fault |-> f])
 
-Next == /\ (MaxOps = 0 \/ Len(hist) < MaxOps)
-        /\ \/ On("life") /\ Life
-           \/ On("emit") /\ Emit
-           \/ On("label") /\ Label
-           \/ On("bind") /\ BindG
-           \/ On("fixup") /\ FixG
-           \/ On("sect") /\ Sect
-           \/ On("addr") /\ Addr
-           \/ On("reloc") /\ Reloc
+AReloc == G("reloc") /\ \E t \in {1, 3}, f \in MCFaults : \E r \in Cands({"TooManyRelocations"}, f) : \E id \in IdCands(r, Len(relocs)) :
+            NewReloc(t, r, id, f) /\ Rec([op |-> "reloc", type |-> t, fault |-> f])
+AResize == G("resize") /\ \E s \in {0, 1} : s < Len(sects) /\ sects[s + 1].bsize = 0 /\ Resize(s, 64) /\ Rec([op |-> "resize", sec |-> s])
+
+Next == AInit \/ AReinit \/ AResetH \/ ASetEH \/ ASetLG \/ AAttach \/ ADetach \/ AELabel \/ AENamed \/ AELookup \/ AEBindAsm \/ AEBindBuilder
+        \/ AEValid \/ ALabel \/ ANamed \/ ALookup \/ ABind \/ AFixup \/ AResolve \/ AFlatten \/ ASection \/ ASecByName \/ AEnsure
+        \/ AAddAddr \/ AReloc \/ AResize
 
 (* a model started on an initialised holder (the "life" group starts from the uninitialised one) *)
 MInit == IF On("life") THEN RInit /\ hist = <<>>
@@ -111,8 +106,11 @@ MInit == IF On("life") THEN RInit /\ hist = <<>>
 Spec == MInit /\ [][Next]_mvars
 
 View == rvars
-(* behaviour export: one line per maximal history *)
-Export == (MaxOps > 0 /\ Len(hist) = MaxOps) => PrintT(<<"BEH", hist>>)
+(* behaviour export.  ExportStates (with VIEW View): the history that first reached each distinct registry    *)
+(* state - one script per reachable state of the bounded model.  ExportLong: histories of length MaxOps (used *)
+(* with TLC's simulation mode, which also takes the refused calls).                                          *)
+ExportStates == PrintT(<<"BEH", ToJson(hist)>>)
+ExportLong == (MaxOps > 0 /\ Len(hist) = MaxOps) => PrintT(<<"BEH", ToJson(hist)>>)
 
 (* ---- reachability controls: each must be VIOLATED (the invariants above are not vacuous) ---- *)
 NeverTwoNamed == Cardinality(nmap) < 2
